@@ -3,6 +3,8 @@ import Sparrow.Model.Bake
 import Sparrow.Model.Source
 import Driver.Parse
 import Sparrow.Model.Lifecycle
+import Sparrow.Model.Patches
+import Sparrow.Model.Brdf
 import Sparrow.Generated.CheckParse
 open Sparrow Driver
 
@@ -266,6 +268,64 @@ def cmdLife : P String := do
     out := out.push (stStr s)
   return "ok " ++ " | ".intercalate out.toList
 
+instance : NatCast Float := ⟨Float.ofNat⟩
+
+/-- `patches p wall[12]` → `ok nx ny xIdx yIdx | coords[nx*ny*12]` or `err other` -/
+def cmdPatches : P String := do
+  let p ← flt
+  let wl ← flts 12
+  let w : Quad Float := fun v a => wl.getD (3 * v + a) 0
+  match grid w p with
+  | none => return "err other"
+  | some g =>
+    let n := totalPatches g
+    let mut out := Array.mkEmpty (n * 12)
+    for k in [0:n] do
+      let q := patchOf w g k
+      for v in [0:4] do
+        for a in [0:3] do
+          out := out.push (q v a)
+    return s!"ok {g.nx} {g.ny} {g.xIdx} {g.yIdx} | " ++ fmtFloats out
+
+/-- `wallof ncounts counts… k` → `ok wall` -/
+def cmdWallOf : P String := do
+  let n ← nat
+  let cs ← nats n
+  let k ← nat
+  return s!"ok {wallOfPatch cs.toList k}"
+
+/-- `brdfscat n s a cos[n] w[n] mir[n]` → `ok brdf[n*n]` -/
+def cmdBrdfScat : P String := do
+  let n ← nat; let s ← flt; let a ← flt
+  let cs ← flts n; let w ← flts n; let mir ← nats n
+  let mut out := Array.mkEmpty (n * n)
+  for i in [0:n] do
+    for o in [0:n] do
+      out := out.push (brdfScattering n (fun k => cs.getD k 0) (fun k => w.getD k 0) (fun k => mir.getD k 0) s a i o)
+  return "ok " ++ fmtFloats out
+
+/-- `brdfdir n a cos[n] w[n] sd[n*n]` → `ok brdf[n*n]` -/
+def cmdBrdfDir : P String := do
+  let n ← nat; let a ← flt
+  let cs ← flts n; let w ← flts n; let sd ← flts (n * n)
+  let mut out := Array.mkEmpty (n * n)
+  for i in [0:n] do
+    for o in [0:n] do
+      out := out.push (brdfDirectional n (fun k => cs.getD k 0) (fun k => w.getD k 0) (fun i o => sd.getD (i * n + o) 0) a i o)
+  return "ok " ++ fmtFloats out
+
+/-- `nearestidx n m dirs[n*3] queries[m*3]` → `ok idx[m] | margin[m]` (first minimum of the squared distance) -/
+def cmdNearest : P String := do
+  let n ← nat; let m ← nat
+  let ds ← flts (3 * n); let qs ← flts (3 * m)
+  let mut out := Array.mkEmpty m
+  let mut mg := Array.mkEmpty m
+  for k in [0:m] do
+    let q := vec3At qs k
+    out := out.push (nearest (fun j => vec3At ds j) n q)
+    mg := mg.push (argminMargin n fun j => Vec3.sqDist (vec3At ds j) q)
+  return "ok " ++ fmtNats out ++ " | " ++ fmtFloats mg
+
 def dispatch (cmd : String) : P String :=
   match cmd with
   | "exchange" => cmdExchange
@@ -277,6 +337,11 @@ def dispatch (cmd : String) : P String :=
   | "direct" => cmdDirect
   | "checkcfg" => cmdCheckCfg
   | "life" => cmdLife
+  | "patches" => cmdPatches
+  | "brdfscat" => cmdBrdfScat
+  | "brdfdir" => cmdBrdfDir
+  | "nearestidx" => cmdNearest
+  | "wallof" => cmdWallOf
   | "srcenergy" => cmdSrcEnergy
   | "shift" => cmdShift false
   | "roll" => cmdShift true
